@@ -91,7 +91,9 @@ CHECKS["C14"] = {
             "before; traces of TLC-generated histories (object reuse across unrelated inputs, pooled compressors used from 4 "
             "goroutines) and a second pass grouping all records of the run by key must be accepted.",
     "design_ref": "DESIGN.md section 5 (C14)",
-    "note": "Block level in this version; frame-level determinism (concurrency, schedules, write partition) is added with the Writer model.",
+    "note": "Frame level: groups of runs for one (input, options) - concurrency 1/2/4/16, seeded schedule perturbation with poisoned "
+            "pools, partitions of the input from MC_Writer's Write-only histories plus B+-1, single-byte and seeded pieces - must emit "
+            "byte-identical frames (memo key = (input, options)).",
 }
 
 CHECKS["C19"] = {
